@@ -215,3 +215,76 @@ def run(run, P):
         run.require(seen[0] > 0, 'R-ROUTE: coap_send_pdu no longer transmits through coap_session_send_pdu()')
     elif not run.fixture_mode:
         run.require(False, 'anchor function coap_send_pdu() not found')
+
+
+# ---------------------------------------------------------------------------------------------------------------
+VERDICT_FIELDS = ('validate_id_call_back', 'validate_ih_call_back')
+
+
+def run_psk(run, P):
+    """R-PSK-VERDICT (C19): "an identity the server does not know, or a hint the client rejects -> the session never becomes
+    established".  The application says so by returning NULL from its identity / hint validation callback.  In every
+    back-end function that invokes such a callback:
+      - the variable that receives the verdict is not assigned again on the path after the callback (a later fall-back to
+        the session's or context's default key silently accepts what the application rejected);
+      - a non-negative (success) return is reached only with the verdict known non-NULL."""
+    from core.prog import callee_field
+    run.rule('R-PSK-VERDICT')
+    n = 0
+    for f in P.lib_funcs():
+        sites = []
+        for b, ev in P.events(f):
+            t = ev['e']
+            if t.get('k') == 'asg' and t.get('op') == '=':
+                r = strip(t['r'])
+                if isinstance(r, dict) and r.get('k') == 'call' and callee_field(r) in VERDICT_FIELDS and ap(t['l']):
+                    sites.append((ev, ap(t['l']), callee_field(r)))
+        if not sites:
+            continue
+        name = f['name']
+        vvars = {v for _e, v, _f in sites}
+        for _e, v, fld in sites:
+            n += 1
+            run.instance('R-PSK-VERDICT', '%s: verdict of %s' % (name, fld))
+
+        def is_rule_event(ev):
+            t = ev['e']
+            if t.get('k') == 'ret':
+                return True
+            if t.get('k') == 'asg' and ap(t['l']) in vvars:
+                return True
+            return False
+        keys, R = relevance(f, is_rule_event, vvars)
+        R = set(R) | vvars
+
+        def on_event(ev, env, ctx):
+            t = ev['e']
+            if t.get('k') == 'asg' and ap(t['l']) in vvars:
+                v = ap(t['l'])
+                r = strip(t['r'])
+                iscb = isinstance(r, dict) and r.get('k') == 'call' and callee_field(r) in VERDICT_FIELDS
+                e = env.copy()
+                if iscb:
+                    e.ts['cb'] = tuple(sorted(set(env.ts.get('cb', ())) | {v}))
+                elif v in env.ts.get('cb', ()):
+                    run.oblige('R-PSK-VERDICT', False, '%s:overwrite' % name)
+                    run.violation('R-PSK-VERDICT', name, ev['loc'], 'verdict-overwritten',
+                                  'the result of the application\'s identity/hint validation callback is replaced (%s) before it is acted on: an identity or hint the '
+                                  'application rejected (NULL) falls back to another key and the handshake can complete' % short(t)[:70], ctx.path())
+                    e.ts['cb'] = tuple(x for x in env.ts.get('cb', ()) if x != v)
+                return [apply_generic(ev, e, R)]
+            if t.get('k') == 'ret' and 'e' in t:
+                K = const_int(t['e'])
+                if K is not None and K < 0:
+                    return None
+                for v in env.ts.get('cb', ()):
+                    ok = env.nullf(v) == 'N'
+                    run.oblige('R-PSK-VERDICT', ok, '%s:success-return' % name)
+                    if not ok:
+                        run.violation('R-PSK-VERDICT', name, ev['loc'], 'accept-with-null-verdict',
+                                      'a success return is reached on a path where the validation callback was called and its result is not known to be non-NULL: '
+                                      'a rejected identity/hint does not abort the handshake', ctx.path())
+            return None
+        ctx = solve(f, Env({'cb': ()}), on_event, None, keys, R, key_fn=lambda e: (e.ts.get('cb'), tuple(e.nullf(v) for v in sorted(vvars))))
+        run.stats['psk_solver_steps'] += ctx.steps
+    run.require(n >= 2 or run.fixture_mode, 'R-PSK-VERDICT: fewer than 2 identity/hint validation call sites found in the TLS back end')
